@@ -57,7 +57,9 @@ func listOpsFor(t *pgen.Type) []string {
 }
 
 func containsCustom(t *pgen.Type) bool {
-	return t.Has(func(x *pgen.Type) bool { return x.K == pgen.KNamed && (x.EqualMethod == "custom" || x.CompareMethod == "custom") })
+	return t.Has(func(x *pgen.Type) bool {
+		return x.K == pgen.KNamed && (x.EqualMethod == "custom" || x.CompareMethod == "custom")
+	})
 }
 
 func checkC01(c *Ctx) {
